@@ -8,7 +8,7 @@
    [new_reader (finalize w) = Some r] : NewReader on the sections Finalize produced;  theorem 4 says
    that going through the byte image changes nothing ([finalize_reader]). *)
 From Coq Require Import NArith List Lia.
-Require Import Pk.IndexFormat Pk.IndexFormatCodec Pk.IndexFormatHosts Pk.IndexFormatWriter Pk.IndexFormatData Pk.IndexFormatPackets Pk.IndexFormatRefuted.
+Require Import Pk.IndexFormat Pk.IndexFormatCodec Pk.IndexFormatHosts Pk.IndexFormatWriter Pk.IndexFormatData Pk.IndexFormatPackets Pk.IndexFormatLookup Pk.IndexFormatRefuted.
 Import ListNotations.
 Open Scope N_scope.
 
@@ -68,6 +68,28 @@ Theorem C01_all_streams_enumerate : forall gcap L w r,
   new_reader (finalize w) = Some r ->
   map st_id (all_streams r) = ids_of L /\ (forall id, In id (ids_of L) -> r_min r <= id <= r_max r).
 Proof. intros gcap L w r H1 H2 H3 H4 H5. split; [exact (all_streams_ids gcap L w r H1 H2 H3 H4 H5)|exact (min_max_ids gcap L w r H1 H2 H3 H4 H5)]. Qed.
+
+(* ---------------- 1b. lookups by the source of the first packet ---------------- *)
+(* first_src s: the source (capture name, packet index) of the first packet record of s (AllFromPacketMetadata
+   order).  Hypotheses: every stream has one, they are pairwise distinct, names without NUL, < 2^32 packet records.
+   The by-source section is the merge-sorted list of stream numbers; the reader runs sort.Search (bsearch) with the
+   predicate of reader.go:379-388 and compares the hit. *)
+Theorem C01_stream_by_first_packet_source_finds_stored : forall gcap L w r,
+  16 < gcap <= 4 * P16 ->
+  Forall (fun ids => wf_meta (snd ids)) L -> Forall (fun ids => names_ok (snd ids)) L ->
+  Forall (fun ids => first_src (snd ids) <> None) L -> NoDup (map (fun ids => first_src_or (snd ids)) L) ->
+  add_streams gcap new_writer L = Some w -> new_reader (finalize w) = Some r -> lenN (w_packets w) < P32 ->
+  forall k id s s0, nth_error L k = Some (id, s) -> first_src s = Some s0 ->
+  exists rec, stream_by_source r (fst s0) (snd s0) = Some (rec, N.of_nat k) /\ nth_error (all_streams r) k = Some rec.
+Proof. exact stream_by_source_stored. Qed.
+
+Theorem C01_stream_by_first_packet_source_nothing_else : forall gcap L w r,
+  16 < gcap <= 4 * P16 ->
+  Forall (fun ids => wf_meta (snd ids)) L -> Forall (fun ids => names_ok (snd ids)) L ->
+  Forall (fun ids => first_src (snd ids) <> None) L ->
+  add_streams gcap new_writer L = Some w -> new_reader (finalize w) = Some r -> lenN (w_packets w) < P32 ->
+  forall name idx, (forall ids, In ids L -> first_src (snd ids) <> Some (name, idx)) -> stream_by_source r name idx = None.
+Proof. exact stream_by_source_other. Qed.
 
 (* ---------------- 2. source-packet references ---------------- *)
 (* wf_packets s: at least one packet, every packet has a source, no source is directly repeated, timestamps in
